@@ -295,6 +295,22 @@ class TupleSubclass(tuple):
     pass
 
 
+# containers whose class also defines __call__ (a registry that can be called to look a name up): still containers
+class CallableMapping(CustomMapping):
+    def __call__(self, k):
+        return self._d[k]
+
+
+class CallableDict(dict):
+    def __call__(self, k):
+        return self[k]
+
+
+class CallableList(list):
+    def __call__(self, i):
+        return self[i]
+
+
 class CustomSeq(collections.abc.Sequence):
     def __init__(self, xs):
         self._xs = xs
@@ -379,6 +395,7 @@ WRAPS = {
     "map": ("it", lambda it: map(lambda e: e, list(it))), "tee": ("it", lambda it: itertools.tee(it)[0]),
     "ListSubclass": ("l", ListSubclass), "CustomSeq": ("l", CustomSeq), "CustomIterable": ("l", CustomIterable),
     "TupleSubclass": ("t", TupleSubclass),
+    "CallableMapping": ("d", CallableMapping), "CallableDict": ("d", CallableDict), "CallableList": ("l", CallableList),
 }
 WRAPS_OF = {}
 for _w, (_t, _) in WRAPS.items():
